@@ -35,6 +35,11 @@ pub enum Seg {
     Comment { style: u8, lines: Vec<Vec<u16>>, ignore: Option<u8>, stars: bool, indent: u8 },
     /// a line comment whose prose opens with `word:word` (prose, not a directive)
     KeyValueComment { style: u8, words: Vec<u16>, indent: u8 },
+    /// a comment holding a closed fenced code example between two prose lines; `gaps` says which of
+    /// the code lines are preceded by an empty line (bit i: before code line i), `stars` whether
+    /// block-comment lines carry a ` * ` leader. Only rendered for the languages whose comments go
+    /// through the generic (`Unit`) comment parser, which is the one that documents fences.
+    FencedComment { style: u8, before: Vec<u16>, code: Vec<u8>, gaps: u8, after: Vec<u16>, stars: bool, indent: u8 },
     Blank,
 }
 
@@ -77,6 +82,8 @@ pub struct Truth {
     pub class_pad: bool,
     pub class_marker_late: bool,
     pub class_entity: bool,
+    pub class_fence_in_comment: bool,
+    pub class_fence_gap_in_block_comment: bool,
 }
 
 impl Truth {
@@ -92,6 +99,8 @@ impl Truth {
             class_pad: false,
             class_marker_late: false,
             class_entity: false,
+            class_fence_in_comment: false,
+            class_fence_gap_in_block_comment: false,
             multibyte_before_prose: false,
             seen_multibyte: false,
         }
@@ -221,6 +230,69 @@ fn render_source(spec: &'static LangSpec, segs: &[Seg], crlf: bool) -> Truth {
                 t.raw(" ");
                 t.sentence(&words[2..]);
                 t.raw(nl);
+                last_was_comment = true;
+            }
+            Seg::FencedComment { style, before, code, gaps, after, stars, indent: ind } => {
+                let nline = spec.line.len();
+                let nstyles = nline + spec.block.len();
+                if nstyles == 0 {
+                    continue;
+                }
+                let generic = !matches!(spec.id, "javascript" | "javascriptreact" | "typescript" | "typescriptreact" | "java" | "go");
+                let st = *style as usize % nstyles;
+                let block = st >= nline;
+                let lead: String = if block {
+                    (if *stars { " * " } else { "   " }).to_string()
+                } else {
+                    format!("{} ", spec.line[st])
+                };
+                if block {
+                    t.raw(indent(*ind));
+                    t.raw(spec.block[st - nline].0);
+                    t.raw(nl);
+                }
+                t.raw(indent(*ind));
+                t.raw(&lead);
+                t.sentence(before);
+                t.raw(nl);
+                if generic {
+                    t.class_fence_in_comment = true;
+                    t.raw(indent(*ind));
+                    t.raw(&lead);
+                    t.nonprose("```");
+                    t.raw(nl);
+                    for (ci, c) in code.iter().enumerate() {
+                        if gaps >> (ci % 8) & 1 == 1 {
+                            // an empty line inside the example: a bare leader in line comments and
+                            // starred blocks, a really empty line in a block comment without stars
+                            t.raw(indent(*ind));
+                            if block && !*stars {
+                                t.class_fence_gap_in_block_comment = true;
+                            } else {
+                                t.raw(lead.trim_end());
+                            }
+                            t.raw(nl);
+                        }
+                        t.raw(indent(*ind));
+                        t.raw(&lead);
+                        t.nonprose(&format!("{} = {}(1)", ascii_sentinel(*c), ascii_sentinel(c.wrapping_add(1))));
+                        t.raw(nl);
+                    }
+                    t.raw(indent(*ind));
+                    t.raw(&lead);
+                    t.nonprose("```");
+                    t.raw(nl);
+                }
+                t.raw(indent(*ind));
+                t.raw(&lead);
+                t.sentence(after);
+                t.raw(nl);
+                if block {
+                    t.raw(indent(*ind));
+                    t.raw(" ");
+                    t.raw(spec.block[st - nline].1);
+                    t.raw(nl);
+                }
                 last_was_comment = true;
             }
             Seg::Comment { style, lines, ignore, stars, indent: ind } => {
@@ -690,6 +762,8 @@ fn test_file_via(spec: &FileSpec, ctx: &mut CaseCtx, server_wrappers: bool, by_f
     ctx.class_if(truth.class_pad, "blanks_around_delimiter_line");
     ctx.class_if(truth.class_marker_late, "ignore_marker_not_at_the_start_of_its_comment");
     ctx.class_if(truth.class_entity, "character_reference");
+    ctx.class_if(truth.class_fence_in_comment, "fenced_example_in_comment");
+    ctx.class_if(truth.class_fence_gap_in_block_comment, "empty_line_inside_fence_in_unstarred_block_comment");
     ctx.class_if(server_wrappers, "server_wrappers");
     if truth.multibyte_before_prose && truth.prose_segments >= 2 {
         ctx.nontrivial(&(spec, server_wrappers));
@@ -760,6 +834,8 @@ fn source_spec(lang: &'static str) -> BoxedStrategy<FileSpec> {
             .prop_map(|(style, lines, ignore, stars, indent)| Seg::Comment { style, lines, ignore, stars, indent }),
         1 => Just(Seg::Blank),
         1 => (any::<u8>(), words(3, 6), 0u8..4).prop_map(|(style, words, indent)| Seg::KeyValueComment { style, words, indent }),
+        2 => (any::<u8>(), words(2, 5), proptest::collection::vec(any::<u8>(), 1..4), any::<u8>(), words(2, 5), any::<bool>(), 0u8..4)
+            .prop_map(|(style, before, code, gaps, after, stars, indent)| Seg::FencedComment { style, before, code, gaps, after, stars, indent }),
     ];
     (proptest::collection::vec(seg, 2..9), prop::bool::weighted(0.2))
         .prop_map(move |(segs, crlf)| FileSpec::Source { lang: lang.to_string(), segs, crlf })
@@ -848,6 +924,8 @@ pub fn run(run: &mut Run) {
     run.require_class("files_with_ground_truth", "ignore_marker_not_at_the_start_of_its_comment", (n / 20) as u64);
     run.require_class("files_with_ground_truth", "blanks_around_delimiter_line", (n / 100) as u64);
     run.require_class("files_with_ground_truth", "character_reference", (n / 200) as u64);
+    run.require_class("files_with_ground_truth", "fenced_example_in_comment", (n / 20) as u64);
+    run.require_class("files_with_ground_truth", "empty_line_inside_fence_in_unstarred_block_comment", (n / 400) as u64);
 }
 
 pub fn replay(_check: &str, case: Value, run: &mut Run) -> Result<(), String> {
